@@ -511,8 +511,17 @@ pub fn bind_name(aid: u64, name: &str) {
         t.borrow_mut().names.entry(aid).or_insert_with(|| name.to_string());
     });
 }
+/// What is KNOWN (the id read from a handle / from the actor's own context) overrides what the executor predicted from
+/// the spawn order: a library that hands out context ids differently must not confuse the harness.
+pub fn rebind_name(aid: u64, name: &str) {
+    TAB.with(|t| {
+        t.borrow_mut().names.insert(aid, name.to_string());
+    });
+}
 fn actor_of(aid: u64) -> String {
-    TAB.with(|t| t.borrow().names.get(&aid).cloned()).unwrap_or_else(|| format!("?{aid}"))
+    // (an id nobody announced - the library handed out context ids in an unforeseen way: "*" = not identified, the
+    // specification then judges the operation by its result alone)
+    TAB.with(|t| t.borrow().names.get(&aid).cloned()).unwrap_or_else(|| "*".to_string())
 }
 
 // ---------------------------------------------------------------------------------------------
@@ -700,7 +709,7 @@ fn spawn_actor_k<const K: usize>(c: &str, o: &Op) -> Res {
     };
     let aid = hv.aid();
     if actor_of(aid) != o.a {
-        ev(json!({"ev": "harness_error", "task": "env", "what": format!("context id {aid} of {} was predicted for {}", o.a, actor_of(aid))}));
+        rebind_name(aid, &o.a);
     }
     put_h(&o.nh, hv);
     let _ = c;
